@@ -504,11 +504,14 @@ def _slice_1d(dim_shape, lengths, index):
     else:
         rstart = start  # running start
 
-        istart = bisect.bisect_left(chunk_boundaries, start)
+        # the block holding ``start`` is the first one whose upper boundary
+        # lies beyond it (zero-length blocks repeat a boundary, so counting
+        # the boundaries strictly below ``start`` and adding one is not enough)
+        istart = bisect.bisect_right(chunk_boundaries, start)
         istop = bisect.bisect_right(chunk_boundaries, stop)
 
         # the bound is not exactly tight; make it tighter?
-        istart = min(istart + 1, len(chunk_boundaries) - 1)
+        istart = min(istart, len(chunk_boundaries) - 1)
         istop = max(istop - 1, -1)
 
         for i in range(istart, istop, -1):
